@@ -40,6 +40,34 @@ NEEDS = {
  'c18-m2': ('C18', 'classifier enforces the 260-byte ADU limit although the constructors build 261..265-byte FC16/FC23 frames', 'ported to the repaired classifier'),
  'c19-m1': ('C19', 'serial AfterEachRead moved below the fatal-error return: the read that ends the call with an I/O error is never reported', ''),
  'c19-m2': ('C19', 'BeforeParse moved into the read loop exit total >= expectedLen: replies cut short by EOF are parsed without BeforeParse', ''),
+ 'c02-m3': ('C02', 'Client reads into a per-client receive buffer and returns a slice of it: an earlier response (FC1-4/23 alias their input) shows the payload of a later call on the same client', 'wave 2'),
+ 'c02-m4': ('C02', 'exception recognisers additionally require a SUPPORTED originating function: the other 118 exception function codes become untyped "unknown function code" errors', 'wave 2'),
+ 'c05-m3': ('C05', 'group key server+unit without separator: 10.0.0.7:502/unit 1 collides with 10.0.0.7:50/unit 21', 'wave 2'),
+ 'c05-m4': ('C05', 'lenient extraction stops decoding after the first failed field: needs a truncated reply where an unreachable wide field precedes a reachable narrow one in request order', 'wave 2'),
+ 'c06-m3': ('C06', 'ambiguous group key (plain concatenation): targets mix when one port is a decimal prefix of the other and the unit ids supply the digits', 'wave 2'),
+ 'c06-m4': ('C06', 'AddAll adopts the caller\'s slice when the builder is empty and more than 5 fields are given: a later Add writes into shared spare capacity, the caller\'s own append overwrites it', 'wave 2'),
+ 'c07-m3': ('C07', 'network client checks the exception recogniser against the last chunk: fragmented exception replies time out; a 9-byte non-first fragment of a normal TCP reply can become a bogus exception', 'wave 2'),
+ 'c07-m4': ('C07', 'serial client returns "no bytes received" when the FIRST read is an empty timed-out read although the reply arrives on the next read', 'wave 2'),
+ 'c08-m3': ('C08', 'Client.Do leaves the mutex locked on the error path: the call AFTER a failed call on the same client hangs forever', 'wave 2'),
+ 'c08-m4': ('C08', 'Connect stores the dial result before checking the error: a dial function returning a typed-nil connection with an error makes the next Do panic instead of failing as not connected', 'wave 2'),
+ 'c10-m3': ('C10', 'classifier fills tid/unit into the shared ErrIsNotTCPPacket sentinel for function-code-0 frames: errors handed out for other inputs change afterwards (result depends on earlier calls)', 'wave 2'),
+ 'c10-m4': ('C10', 'FC23 TCP parser sizes the write-data copy from the write quantity while the length check uses the byte count: inconsistent frames panic or read spare capacity', 'wave 2'),
+ 'c12-m3': ('C12', 'CRC compared byte by byte with && instead of ||: frames where exactly one CRC byte still matches are accepted as data / device exception', 'wave 2'),
+ 'c12-m4': ('C12', 'ParseRTUResponseWithCRC recognises exception frames BEFORE the CRC check: a bad-CRC 5-byte frame reaching the parser (EOF right after it, or expected length <= 5) becomes a device exception', 'wave 2'),
+ 'c13-m3': ('C13', 'Uint16/Int16 fields honour Field.ByteOrder through WithByteOrder, which mutates the shared Registers: later default-order reads decode little endian', 'wave 2'),
+ 'c13-m4': ('C13', 'string byte swap done in place whenever the BigEndian flag is unset-copy / LittleEndian flag unset-swap disagree: only byte orders 4, 8, 12 (word-order flags without endianness) mutate the payload', 'wave 2'),
+ 'c14-m3': ('C14', 'Close sets conn=nil and Do checks conn under RLock before taking the exclusive lock: a Close between check and Lock makes Do dereference a nil connection (panic)', 'wave 2'),
+ 'c14-m4': ('C14', 'SerialClient reuses one receive buffer and returns a slice of it: replies held by one goroutine are overwritten by the next request of another (data race + wrong content)', 'wave 2'),
+ 'c15-m3': ('C15', 'assembler fast path for a whole first frame stores the tail without draining it: a second whole request in the same read is not answered until more bytes arrive', 'wave 2'),
+ 'c15-m4': ('C15', 'cached pending-frame length is never cleared when the frame completes: after a request cut at offset >= 8, a later SHORTER request on the same connection is left unanswered', 'wave 2'),
+ 'c16-m3': ('C16', 'one default assembler shared by all connections: a partial frame pending on connection A is joined with the bytes of connection B, which gets a reply carrying A\'s tid/unit', 'wave 2'),
+ 'c16-m4': ('C16', 'recovered handler panic reported through the raw s.OnErrorFunc: with OnErrorFunc unset a handler panic calls a nil func in the deferred block and kills the process', 'wave 2'),
+ 'c17-m3': ('C17', 'busy flag cleared right after the handler returns, before the reply is written: a Shutdown landing between handler return and write closes the connection, Shutdown returns nil, reply lost', 'wave 2'),
+ 'c17-m4': ('C17', 'connection count reserved before the accept callback and never given back on rejection: later callbacks are told a count too high by the number of rejections', 'wave 2'),
+ 'c18-m3': ('C18', 'unsupported-function error built by mutating a package-level template (pointer copy): the exception returned for frame A changes once another unsupported frame is classified', 'wave 2'),
+ 'c18-m4': ('C18', 'new FC16 check "byte count == 2 x register count" copy-pasted from FC15: its exception names function 0x0f instead of 0x10 for self-consistent frames with a mismatching quantity', 'wave 2'),
+ 'c19-m3': ('C19', 'BeforeParse receives a hook-side copy that is only cleared when a reply reaches the parser: after a failed call its bytes are prepended to the next call\'s frame (two calls on one client)', 'wave 2'),
+ 'c19-m4': ('C19', 'serial AfterEachRead moved below the fatal-error check: the read that ends the call with an I/O error is never reported', 'wave 2'),
 }
 res = collections.defaultdict(dict)
 for f in sys.argv[1:]:
